@@ -201,6 +201,9 @@ func (c *SpecCtx) eval(n *Node) SV {
 	case "binop":
 		return c.binop(n)
 	case "field":
+		if v, ok := c.qualifiedGlobal(n); ok {
+			return v
+		}
 		return c.field(c.eval(n.Args[0]), n.Name)
 	case "index":
 		return c.index(c.eval(n.Args[0]), c.eval(n.Args[1]))
@@ -295,6 +298,46 @@ func (c *SpecCtx) ident(name string) SV {
 	}
 	fail("spec: unknown identifier %q in %s", name, c.f.fn)
 	return SV{}
+}
+
+// qualifiedGlobal: pkg.Name where pkg is a package imported by the function's package and is not shadowed by a
+// parameter, bound variable or local
+func (c *SpecCtx) qualifiedGlobal(n *Node) (SV, bool) {
+	if len(n.Args) != 1 || n.Args[0].Kind != "ident" || c.pkg == nil {
+		return SV{}, false
+	}
+	q := n.Args[0].Name
+	if _, ok := c.vars[q]; ok {
+		return SV{}, false
+	}
+	if c.lookup != nil {
+		if _, ok := c.lookup(q); ok {
+			return SV{}, false
+		}
+	}
+	for _, imp := range c.pkg.Imports() {
+		if imp.Name() != q {
+			continue
+		}
+		o := imp.Scope().Lookup(n.Name)
+		switch o := o.(type) {
+		case *types.Const:
+			return c.constSV(o), true
+		case *types.Var:
+			sp := c.f.e.prog.Package(imp)
+			if sp == nil {
+				return SV{}, false
+			}
+			if g, ok := sp.Members[n.Name].(*ssa.Global); ok {
+				if c.globalClause && globalAssigned(c.f.e.prog, g) {
+					fail("global clause mentions %s.%s, which is assigned outside package initialisation", q, n.Name)
+				}
+				ref := c.f.e.globalRef(g)
+				return c.deref(SV{T: ref, Sort: "Int", Ty: g.Type()}), true
+			}
+		}
+	}
+	return SV{}, false
 }
 
 func (c *SpecCtx) constSV(o *types.Const) SV {
@@ -706,6 +749,30 @@ func (c *SpecCtx) call(n *Node) SV {
 	case "tag":
 		x := c.eval(n.Args[0])
 		return intSV(app("i_tag", x.T))
+	case "dynresult":
+		// dynresult(fn, args...): the (first) result of the last call through a function value, if that call
+		// was a call of fn with these arguments
+		fn := c.eval(n.Args[0])
+		sig, ok := fn.Ty.Underlying().(*types.Signature)
+		if !ok || sig.Results().Len() == 0 {
+			fail("spec: dynresult of a non-function or of a function without results")
+		}
+		e.heap("G$dyn", "Int")
+		ts := []string{fn.T}
+		for _, a := range n.Args[1:] {
+			ts = append(ts, c.eval(a).T)
+		}
+		ts = append(ts, c.cur.H("G$dyn"))
+		return SV{T: app(dynFnName(e, sig, 0), ts...), Sort: e.sortOf(sig.Results().At(0).Type()), Ty: sig.Results().At(0).Type()}
+	case "dyncalls":
+		// dyncalls(): have calls through function values happened since entry (epoch changed)
+		e.heap("G$dyn", "Int")
+		return boolSV(not(eq(c.cur.H("G$dyn"), c.old.H("G$dyn"))))
+	case "wsnorm":
+		// wsnorm(s): strings.Join(strings.Fields(s), " ") - the text with surrounding white space removed and inner runs collapsed
+		x := c.eval(n.Args[0])
+		e.declFields()
+		return SV{T: app("str_join", app("fields_arr", x.T), "0", app("fields_len", x.T), e.strLit(" ")), Sort: "Str", Ty: types.Typ[types.String]}
 	case "errIs":
 		// errIs(err, target): the uninterpreted errors.Is relation
 		a, b := c.eval(n.Args[0]), c.eval(n.Args[1])
@@ -782,6 +849,10 @@ func (c *SpecCtx) call(n *Node) SV {
 				}
 			}
 			if skip || c.cur.H(h) == entry.H(h) {
+				continue
+			}
+			if !strings.HasPrefix(e.heapSort[h], "(Array") {
+				cs = append(cs, eq(c.cur.H(h), entry.H(h)))
 				continue
 			}
 			r := e.fresh("r!ua")
